@@ -1025,3 +1025,13 @@ NOT_PROVED = NOT_PROVED + ["the end-to-end floating-point residual bound in term
 # Generated/SrcC11Mut.lean and proved equal to the hand model in Props/SrcTieC11Mut.lean)
 from . import srctie
 srctie.wire_mut(globals(), 'C11')
+
+# --- source tie, whole solve routes (translator pass 4: solve, solve_sys, invert_matrix regenerated from utils.rs into Generated/SrcC01Mut.lean,
+# proved equal to Model/Solve.lean in Props/SrcTieC01Mut.lean)
+from . import srctie
+srctie.wire_mut(globals(), 'C01')
+
+# --- deep theorems (Rounding6: end-to-end residual / backward-error bounds in the standard model, wired by the lead)
+PROOF_MODULES = PROOF_MODULES + [m for m in ['Compute.Lemmas.Rounding6', 'Compute.Props.Rounding6'] if m not in PROOF_MODULES]
+REQUIRED_THEOREMS = REQUIRED_THEOREMS + ['Cv.Rounding6.luRoute_residual_norm', 'Cv.Rounding6.luRoute_residual_growth', 'Cv.Rounding6.chol_weight_le', 'Cv.Rounding6.choleskyRoute_residual_norm', 'Cv.Rounding6.invertMatrix_residual']
+NOT_PROVED = list(NOT_PROVED) + ["in the property's norm-wise form (Props/Rounding6), per component: LU route |b - A x|_i <= gamma_(3n) rho ||A|| ||x|| with rho = || |L||U| || / ||A|| explicit and NOT bounded; Cholesky route |b - A x|_i <= gamma_(3n+1) n/(1-gamma_(n+1)) max a_ii ||x|| unconditionally (no growth quantity)"]
